@@ -1,7 +1,7 @@
 (* C19 -- property theorems.  Statements + `exact` only; proofs live in Proofs/C19.v.
    The definitions are those of Model/C19.v, which the correspondence of harness/props/c19.py
    evaluates on every generated document next to load_mei / load_kern (check_doc, check_kern_pitch). *)
-From PV Require Import Lib.Base Model.C19 Proofs.C19.
+From PV Require Import Lib.Base Model.C19 Proofs.C19 Proofs.C19_export.
 From Coq Require Import QArith Qround Ascii.
 #[local] Open Scope Z_scope.
 
@@ -109,3 +109,56 @@ Theorem grace_next_onset : forall mlen t g e r, e_grace g = true ->
   exists o, nth_error (layer_onsets mlen t (g :: e :: r)) 1 = Some (o, e) /\ (o == t)%Q.
 Proof. exact grace_next_onset_lemma. Qed.
 Print Assumptions grace_next_onset.
+
+(* ---------------------------------------------------------------- export -> load (O4) *)
+
+(* load_mei resolves the staff of a note as note@staff, else chord@staff, else n of the enclosing <staff>: a note
+   exported with its own @staff (what save_mei writes), or without any where the enclosing staff is its own, comes
+   back on its staff whatever layer, chord, beam or tuplet it is nested in *)
+Theorem export_staff_preserved : forall (s : Z) (na ca : option Z) (en : Z),
+  na = Some s \/ (na = None /\ ca = Some s) \/ (na = None /\ ca = None /\ en = s) -> imp_staff na ca en = s.
+Proof. exact export_staff_preserved_lemma. Qed.
+Print Assumptions export_staff_preserved.
+
+(* ... whereas omitting it because the staff equals the number of the enclosing LAYER (the voice) is not sound *)
+Theorem export_staff_vs_layer_refuted : exists (s layer_n en : Z), s = layer_n /\ imp_staff None None en <> s.
+Proof. exact export_staff_vs_layer_refuted_lemma. Qed.
+Print Assumptions export_staff_vs_layer_refuted.
+
+(* both loaders place an element where the previous one of its layer / spine ends (position from order): the
+   onsets of the model's layer are exactly the onsets re-derived from the durations ... *)
+Theorem onsets_from_durs_layer : forall mlen evs t,
+  map fst (layer_onsets mlen t evs) = onsets_from_durs t (map (ev_dur mlen) evs).
+Proof. exact onsets_from_durs_layer_lemma. Qed.
+Print Assumptions onsets_from_durs_layer.
+
+(* ... so a voice written as one layer / spine gets its original onsets back if and only if it has no hole
+   (the boundary of known finding C19-K2) *)
+Theorem reload_onsets_iff_gapless : forall rows t,
+  gapless t rows = true <-> Forall2 Qeq (map fst rows) (onsets_from_durs t (map snd rows)).
+Proof. exact reload_onsets_iff_gapless_lemma. Qed.
+Print Assumptions reload_onsets_iff_gapless.
+
+Theorem hole_shifts : forall t d o2 d2 r, ~ (o2 == t + d)%Q ->
+  ~ Forall2 Qeq (map fst ((t, d) :: (o2, d2) :: r)) (onsets_from_durs t (map snd ((t, d) :: (o2, d2) :: r))).
+Proof. exact hole_shifts_lemma. Qed.
+Print Assumptions hole_shifts.
+
+(* a note whose tick duration t (at D divisions) is what its written value denotes is re-loaded, at whatever
+   divisions the loader chooses, with the same duration in quarters: MEI (accepted integral ticks) ... *)
+Theorem mei_roundtrip_duration : forall (D t divs' : Z) e k,
+  0 < D -> 0 < divs' -> 0 < e_val e -> 0 < e_num e -> e_grace e = false ->
+  (inject_Z t == inject_Z D * den_dur (e_val e) (e_dots e) (e_num e) (e_base e))%Q ->
+  mei_ticks divs' e = Some k ->
+  (inject_Z k / inject_Z divs' == inject_Z t / inject_Z D)%Q.
+Proof. exact mei_roundtrip_duration_lemma. Qed.
+Print Assumptions mei_roundtrip_duration.
+
+(* ... and kern (reciprocal value v*num/base with d dots; exact divisions, which kern_divs_exact provides) *)
+Theorem kern_roundtrip_duration : forall (D t divs' v num base : Z) (d : nat) (k : Z),
+  0 < D -> 0 < divs' -> 0 < v -> 0 < num -> 0 < base ->
+  (inject_Z t == inject_Z D * den_dur v d num base)%Q ->
+  (kern_quarters (kern_recip v num base) d * inject_Z divs' == inject_Z k)%Q ->
+  kern_ticks divs' (kern_recip v num base) d = k /\ (inject_Z k / inject_Z divs' == inject_Z t / inject_Z D)%Q.
+Proof. exact kern_roundtrip_duration_lemma. Qed.
+Print Assumptions kern_roundtrip_duration.
